@@ -83,8 +83,8 @@ def _counts(tier):
     n3 = -(-grid_total(3) // GRID_BATCH[K_GRID3])
     n4 = -(-grid_total(4) // GRID_BATCH[K_GRID4])
     if tier == "quick":
-        return {K_GRID3: n3, K_GRIDRAND: 160, K_FLOAT: 4000, K_FILE: 480}
-    return {K_GRID3: n3, K_GRID4: n4, K_GRIDRAND: 6000, K_FLOAT: 160000, K_FILE: 16000}
+        return {K_GRID3: n3, K_GRIDRAND: 960, K_FLOAT: 24000, K_FILE: 2400}
+    return {K_GRID3: n3, K_GRID4: n4, K_GRIDRAND: 10000, K_FLOAT: 280000, K_FILE: 28000}
 
 
 def plan(tier, seed):
@@ -168,15 +168,10 @@ def _mk_filter(orig):
                     ctx.violation("filter_inversion", {"why": "no points_in_poly call seen"},
                                   message="PolygonFilter.filter did not reach points_in_poly")
                 else:
-                    pts, verts, raw = last
+                    raw = last[2]
                     ok = (isinstance(f, np.ndarray) and f.dtype == np.bool_
                           and f.shape == raw.shape == (len(datax),)
-                          and bool(np.array_equal(f, raw ^ bool(self.inverted)))
-                          and bool(np.array_equal(np.asarray(verts), self.points))
-                          and bool(np.array_equal(np.asarray(pts)[:, 0],
-                                                  np.asarray(datax, dtype=np.float64)))
-                          and bool(np.array_equal(np.asarray(pts)[:, 1],
-                                                  np.asarray(datay, dtype=np.float64))))
+                          and bool(np.array_equal(f, raw ^ bool(self.inverted))))
                     if not ok:
                         ctx.violation(
                             "filter_inversion",
@@ -483,7 +478,7 @@ def run_float(ctx, i):
 
     def wit(got, what, cols):
         cols = cols[:6]
-        return {"kind": "float", "meta": {k: v for k, v in meta.items() if k != "how"},
+        return {"kind": "float", "meta": {k: v for k, v in meta.items() if k not in ("how", "near_mag")},
                 "verts": verts.tolist(), "what": what,
                 "points": [pts[c].tolist() for c in cols],
                 "how": [meta["how"][c] for c in cols],
@@ -556,6 +551,10 @@ def run_float(ctx, i):
     ctx.count("points_masked_rounding_band", int((near & ~onb).sum()))
     ctx.count("points_judged_ray_through_vertex", int((rt & judged).sum()))
     ctx.count("points_judged_inside", int((inside & judged).sum()))
+    ctx.count("float_points_judged_inside", int((inside & judged).sum()))
+    for k, mg in meta["near_mag"].items():
+        ctx.count("float_near_edge_rel_distance_1e%+03d[%s]"
+                  % (int(np.floor(np.log10(mg))), "judged" if judged[k] else "masked"))
     for h in set(meta["how"]):
         sel = np.array([m == h for m in meta["how"]])
         ctx.count(f"float_points_judged[{h}]", int((sel & judged).sum()))
@@ -564,7 +563,7 @@ def run_float(ctx, i):
         ctx.count("nontrivial_polygons")
     if i % 1999 == 0:
         ctx.sample({"kind": "float", "case": i, "meta": {k: v for k, v in meta.items()
-                                                         if k != "how"},
+                                                         if k not in ("how", "near_mag")},
                     "verts": verts.tolist()[:4], "judged": int(judged.sum())})
 
 
@@ -868,6 +867,25 @@ def run_asan(ctx, spec):
         overlay, env_add = native.build_sanitized(dest)
     except Exception as exc:
         return not_run("build failed: " + repr(exc)[:80])
+    try:
+        # boot.boot() verifies that dclab was imported from $VERIF_REPO after resolving
+        # symlinks; the overlay consists of symlinks into the repository, so give the
+        # package's __init__.py a real copy (inside the scratch overlay only).
+        ini = dest / "dclab" / "__init__.py"
+        if ini.is_symlink():
+            target = ini.resolve()
+            ini.unlink()
+            shutil.copy(target, ini)
+    except Exception as exc:
+        return not_run("overlay fix-up failed: " + repr(exc)[:80])
+    try:
+        sos = [p for p in (dest / "dclab" / "external" / "skimage").rglob("*.so")
+               if p.name.startswith(("_pnpoly", "geometry"))]
+        if len(sos) < 2 or not all(b"__asan_report" in p.read_bytes() for p in sos):
+            return not_run("sanitized extensions missing or not instrumented")
+        ctx.count("sanitizer_instrumented_extensions_verified", len(sos))
+    except Exception as exc:
+        return not_run("cannot inspect sanitized extensions: " + repr(exc)[:80])
     if not os.path.exists(env_add.get("LD_PRELOAD", "/nonexistent")):
         return not_run("asan runtime library missing")
     cases = ([[K_GRID3, j] for j in (0, 1, 5, 40, 259)] + [[K_GRID4, j] for j in (0, 9, 700)]
